@@ -1,10 +1,19 @@
 import RedbModel.Lemmas.BuddyLowest
+import RedbModel.Lemmas.BuddyResize
+import RedbModel.Lemmas.BuddySerial
 /-!
 Further proved facts about the buddy allocator model, beyond the C14 obligations.
 The proofs live in the imported files; this file collects the headline statements.
 
 * (a) `allocLowest` (`BuddyLowest.lean`): sound like `alloc`, returns the least entirely free
   block of the requested order, complete.
+* (b) `Buddy.resize` (`BuddyResize.lean`): growing always succeeds, preserves `Inv` for the new
+  length and frees exactly the new pages; shrinking succeeds iff the tail pages are all free and
+  then preserves `Inv` and keeps exactly the free pages below the new length.
+* (c) serialization (`BuddySerial.lean`): `fromBytes (toBytes b) b.cap = b` under explicit
+  well-formedness hypotheses. The version WITHOUT a bound on the per-order bitmap lengths is
+  false (`not_fromBytes_toBytes_without_hbits`), hence the `_partial` suffix on the general one;
+  under the `lens` clause of `Inv` the bound follows from `b.len < 2^32`.
 -/
 namespace Redb.Buddy
 
@@ -24,5 +33,35 @@ theorem more_allocLowest_complete (mo len : Nat) (f : List Bits) (o : Nat)
     (h : Inv mo len f) (ha : allocLowest mo f o = none) :
     ¬ ∃ i, o ≤ mo ∧ (i + 1) * 2 ^ o ≤ len ∧ ∀ p, p / 2 ^ o = i → PageFree mo f p :=
   allocLowest_complete mo len f o h ha
+
+/-- (b) grow: always succeeds; `Inv` holds for the new length; exactly the pages in
+`[len, newSize)` become free in addition. -/
+theorem more_resize_grow (b : Buddy) (newSize : Nat)
+    (h : Inv b.maxOrder b.len b.free) (hg : b.len < newSize) :
+    ∃ b', b.resize newSize = some b' ∧ b'.len = newSize ∧ b'.maxOrder = b.maxOrder ∧
+      b'.cap = b.cap ∧ Inv b.maxOrder newSize b'.free ∧
+      ∀ q, PageFree b.maxOrder b'.free q ↔
+        (PageFree b.maxOrder b.free q ∨ (b.len ≤ q ∧ q < newSize)) :=
+  resize_grow' b newSize h hg
+
+/-- (b) shrink: succeeds exactly when all tail pages are free (otherwise a Rust `assert!` would
+fire); then `Inv` holds for the new length and the free pages are those below `newSize`. -/
+theorem more_resize_shrink (b : Buddy) (newSize : Nat)
+    (h : Inv b.maxOrder b.len b.free) (hs : newSize ≤ b.len) :
+    ((b.resize newSize).isSome ↔
+      ∀ q, newSize ≤ q → q < b.len → PageFree b.maxOrder b.free q) ∧
+    ∀ b', b.resize newSize = some b' → b'.len = newSize ∧ b'.maxOrder = b.maxOrder ∧
+      b'.cap = b.cap ∧ Inv b.maxOrder newSize b'.free ∧
+      ∀ q, PageFree b.maxOrder b'.free q ↔ (PageFree b.maxOrder b.free q ∧ q < newSize) :=
+  resize_shrink' b newSize h hs
+
+/-- (c) round trip of the on-disk format for an allocator state satisfying `Inv`, with the
+numeric fields fitting their on-disk widths. -/
+theorem more_fromBytes_toBytes (b : Buddy)
+    (h : Inv b.maxOrder b.len b.free)
+    (hmo : b.maxOrder < 256) (hlen : b.len < 2 ^ 32)
+    (hsz : (Buddy.toBytes b).length < 2 ^ 32) :
+    Buddy.fromBytes (Buddy.toBytes b) b.cap = b :=
+  fromBytes_toBytes_of_lens b h.size hmo hlen h.lens hsz
 
 end Redb.Buddy
